@@ -329,23 +329,25 @@ theorem srcReferring_sublist (b : Blk) (sid : String) :
 
 /-! ## parent source -/
 
-/-- what `parentSource()` returns is a source of the block that answers `hasSource(id)` with true -/
+/-- what `parentSource()` returns is a source of the block that has a direct child with the id -/
 theorem parentSource_sound (b : Blk) (i : String) (p : Src) (h : parentSource b i = some p) :
-    p ∈ nodesL b.sources ∧ hasSourceKey i p = true := by
+    p ∈ nodesL b.sources ∧ ∃ c ∈ p.children, c.val.id = i := by
   unfold parentSource at h
-  exact blockFind_sound _ _ _ (List.mem_of_mem_head? h)
+  have := blockFind_sound _ _ _ (List.mem_of_mem_head? h)
+  refine ⟨this.1, ?_⟩
+  have hk := this.2
+  unfold hasChildWithId at hk
+  simpa using hk
 
-/-- **parentSource_spec** — ids pairwise distinct within the block, no source of the block NAMED like the queried id
-    (names that are ids are finding K1): the parent source of a child of `p` is `p` itself … -/
+/-- **parentSource_spec** — ids pairwise distinct within the block: the parent source of a child of `p` is `p` itself … -/
 theorem parentSource_spec (b : Blk) (p c : Src) (hh : heightL b.sources ≤ unlimited + 1)
     (hnd : ((nodesL b.sources).map (·.val.id)).Nodup)
-    (hname : ∀ x ∈ nodesL b.sources, x.val.name ≠ c.val.id) (huuid : looksLikeUUID c.val.id = true)
     (hp : p ∈ nodesL b.sources) (hc : c ∈ p.children) : parentSource b c.val.id = some p := by
-  have hkey : hasSourceKey c.val.id p = true := by
-    unfold hasSourceKey
-    simp only [huuid, Bool.true_and, Bool.or_eq_true, List.any_eq_true]
-    exact Or.inr ⟨c, hc, by simp⟩
-  have hm : p ∈ blockFindSources (hasSourceKey c.val.id) unlimited b.sources :=
+  have hkey : hasChildWithId c.val.id p = true := by
+    unfold hasChildWithId
+    simp only [List.any_eq_true]
+    exact ⟨c, hc, by simp⟩
+  have hm : p ∈ blockFindSources (hasChildWithId c.val.id) unlimited b.sources :=
     (unlimited_depth_whole_block _ unlimited b.sources hh).mem_iff.2 (List.mem_filter.2 ⟨hp, hkey⟩)
   cases hres : parentSource b c.val.id with
   | none =>
@@ -353,40 +355,24 @@ theorem parentSource_spec (b : Blk) (p c : Src) (hh : heightL b.sources ≤ unli
     rw [List.head?_eq_none_iff] at hres
     rw [hres] at hm; cases hm
   | some q =>
-    obtain ⟨hq, hqk⟩ := parentSource_sound b c.val.id q hres
-    have hperm := children_of_nodes_perm (heightL b.sources) b.sources (Nat.le_refl _)
-    unfold hasSourceKey at hqk
-    simp only [huuid, Bool.true_and, Bool.or_eq_true, List.any_eq_true] at hqk
-    rcases hqk with ⟨c', hc', hn⟩ | ⟨c', hc', hi⟩
-    · exfalso
-      have : c' ∈ nodesL b.sources :=
-        (nodesL_perm_step b.sources).mem_iff.2 (List.mem_append_right _ (hperm.mem_iff.1 (List.mem_flatMap.2 ⟨q, hq, hc'⟩)))
-      exact hname c' this (by simpa using hn)
-    · have : q = p := parent_unique (·.val.id) b.sources hnd hq hp hc' hc (by simpa using hi)
-      rw [this]
+    obtain ⟨hq, c', hc', hi⟩ := parentSource_sound b c.val.id q hres
+    have : q = p := parent_unique (·.val.id) b.sources hnd hq hp hc' hc hi
+    rw [this]
 
-/-- … and a root source (or an id that is nobody's child) has none -/
+/-- … and an id that is nobody's child has none -/
 theorem parentSource_none (b : Blk) (i : String)
-    (hname : ∀ x ∈ nodesL b.sources, x.val.name ≠ i)
     (hno : ∀ p ∈ nodesL b.sources, ∀ c ∈ p.children, c.val.id ≠ i) : parentSource b i = none := by
   cases hres : parentSource b i with
   | none => rfl
   | some q =>
     exfalso
-    obtain ⟨hq, hqk⟩ := parentSource_sound b i q hres
-    have hperm := children_of_nodes_perm (heightL b.sources) b.sources (Nat.le_refl _)
-    unfold hasSourceKey at hqk
-    simp only [Bool.or_eq_true, List.any_eq_true, Bool.and_eq_true] at hqk
-    rcases hqk with ⟨c', hc', hn⟩ | ⟨_, c', hc', hi⟩
-    · have : c' ∈ nodesL b.sources :=
-        (nodesL_perm_step b.sources).mem_iff.2 (List.mem_append_right _ (hperm.mem_iff.1 (List.mem_flatMap.2 ⟨q, hq, hc'⟩)))
-      exact hname c' this (by simpa using hn)
-    · exact hno q hq c' hc' (by simpa using hi)
+    obtain ⟨hq, c', hc', hi⟩ := parentSource_sound b i q hres
+    exact hno q hq c' hc' hi
 
 /-- a root source is nobody's child when ids are pairwise distinct -/
 theorem parentSource_root (b : Blk) (r : Src) (hnd : ((nodesL b.sources).map (·.val.id)).Nodup)
-    (hname : ∀ x ∈ nodesL b.sources, x.val.name ≠ r.val.id) (hr : r ∈ b.sources) : parentSource b r.val.id = none :=
-  parentSource_none b r.val.id hname fun p hp c hc => root_not_child (·.val.id) b.sources hnd hr hp hc
+    (hr : r ∈ b.sources) : parentSource b r.val.id = none :=
+  parentSource_none b r.val.id fun p hp c hc => root_not_child (·.val.id) b.sources hnd hr hp hc
 
 def o (id name : String) (cs : List Src) : Src := .node { id := id, name := name, type := "t" } cs
 def uu (c : Char) : String := String.ofList (List.replicate 8 c ++ ['-'] ++ List.replicate 4 c ++ ['-'] ++ List.replicate 4 c ++ ['-'] ++ List.replicate 4 c ++ ['-'] ++ List.replicate 12 c)
@@ -394,15 +380,17 @@ def blkEx : Blk := { id := "b", sources := [o (uu '1') "r" [o (uu '2') "x" [o (u
 def o3 : Src := o (uu '3') "y" []
 def o2 : Src := o (uu '2') "x" [o3]
 example : parentSource blkEx (uu '3') = some o2 :=
-  parentSource_spec blkEx o2 o3 (by decide) (by decide) (by decide) (by decide) (by decide) (by decide)
+  parentSource_spec blkEx o2 o3 (by decide) (by decide) (by decide) (by decide)
 example : parentSource blkEx (uu '5') = none :=
-  parentSource_root blkEx (o (uu '5') "r2" []) (by decide) (by decide) (by decide)
-/-- counter-witness for the name hypothesis (K1): a source NAMED like the id of another source is taken for it -/
-def blkK1 : Blk := { id := "b", sources := [o (uu '1') "r" [o (uu '2') "x" []], o (uu '5') "r2" [o (uu '6') (uu '2') []]] }
-example : (parentSource blkK1 (uu '2')).map (·.val.id) = some (uu '1') := by
-  unfold parentSource; rw [blockFind_beyond_height _ 3 unlimited _ (by decide) (by decide), blockFindSources_eq_perRoot]; decide
-def blkK1' : Blk := { id := "b", sources := [o (uu '5') "r2" [o (uu '6') (uu '2') []], o (uu '1') "r" [o (uu '7') "z" [o (uu '2') "x" []]]] }
-example : (parentSource blkK1' (uu '2')).map (·.val.id) = some (uu '5') := by   -- the true parent is 7777…
+  parentSource_root blkEx (o (uu '5') "r2" []) (by decide) (by decide)
+
+/-- counter-witness for the code before fix S1 (`SourceFilter`, i.e. `hasSource(name_or_id)`): a source NAMED like the id of
+    another source is taken for it — the source 5555… has a child named like the id 2222…, is met first, and is returned
+    although the parent of 2222… is 7777… -/
+def blkS1 : Blk := { id := "b", sources := [o (uu '5') "r2" [o (uu '6') (uu '2') []], o (uu '1') "r" [o (uu '7') "z" [o (uu '2') "x" []]]] }
+example : (parentSourceByKey blkS1 (uu '2')).map (·.val.id) = some (uu '5') := by
+  unfold parentSourceByKey; rw [blockFind_beyond_height _ 3 unlimited _ (by decide) (by decide), blockFindSources_eq_perRoot]; decide
+example : (parentSource blkS1 (uu '2')).map (·.val.id) = some (uu '7') := by
   unfold parentSource; rw [blockFind_beyond_height _ 3 unlimited _ (by decide) (by decide), blockFindSources_eq_perRoot]; decide
 
 /-! ## inherited properties -/
